@@ -363,6 +363,41 @@ class Explorer:
             return False
         return True
 
+    def _init_list(self, f, fid, st, root, path, i, check=False):
+        """Store the elements of an initialiser list (semantic form) under root/path.  With check=True only
+        tells whether the shape is understood (a struct with one child per field, or an array)."""
+        n = f.nodes[i]
+        t = n.get("t", "")
+        kids = n["c"]
+        if t.startswith("struct ") and "[" not in t:
+            rec = self.prog.records.get(t[len("struct "):])
+            if rec is None or rec.get("union") or len(rec["fields"]) != len(kids):
+                return False
+            keys = [((t[len("struct "):], fl["name"]),) for fl in rec["fields"]]
+        elif t.endswith("]"):
+            keys = [(k,) for k in range(len(kids))]
+        else:
+            return False
+        for key, c in zip(keys, kids):
+            cn = f.nodes[c]
+            if cn["k"] == "InitListExpr":
+                if not self._init_list(f, fid, st, root, path + key, c, check):
+                    return False
+                continue
+            if check:
+                continue
+            if cn["k"] == "ImplicitValueInitExpr":
+                ct = cn.get("t", "")
+                if ct.endswith("*"):
+                    st.store[(root, path + key)] = NULL
+                elif ct.startswith("struct ") or ct.startswith("union ") or ct.endswith("]"):
+                    st.store[(root, path + key + ("zeroinit",))] = INT(1)
+                else:
+                    st.store[(root, path + key)] = INT(0)
+            else:
+                st.store[(root, path + key)] = self.V(f, fid, c, st)
+        return True
+
     # ---- main entry ------------------------------------------------------
     def run(self, f, args, store, events=(), depth=0, cons=()):
         """args: list of values for the parameters (missing = TOP)."""
@@ -478,6 +513,12 @@ class Explorer:
                             # struct/array local initialised with {0}
                             self.havoc_root(st.store, ("loc", fid, d["name"]))
                             st.store[(("loc", fid, d["name"]), ("zeroinit",))] = INT(1)
+                        elif "init" in d and f.nodes[d["init"]]["k"] == "InitListExpr" and \
+                                self._init_list(f, fid, st, ("loc", fid, d["name"]), (), d["init"], check=True):
+                            # struct / array local with an initialiser list: element by element (the list is in
+                            # semantic form: one child per field, in declaration order)
+                            self.havoc_root(st.store, ("loc", fid, d["name"]))
+                            self._init_list(f, fid, st, ("loc", fid, d["name"]), (), d["init"])
                         elif "init" in d:
                             st.store[loc] = self.V(f, fid, d["init"], st)
                         else:
